@@ -1,6 +1,7 @@
 #!/bin/bash
 # tools/runall.sh [tier] [seed] — run every check, print one summary line each (developer helper)
 tier=${1:-quick}; seed=${2:-1}
+/verif/vcheck build || exit 2
 cd /verif/harness
 for i in $(seq -w 1 20); do
   id=C$i
